@@ -21,6 +21,14 @@ import (
 //	                    writeBlockContent: a CASM migration of a class without metadata
 //	store-wrong-root    Store of a valid next block with a wrong NewRoot (fails in / before Update)
 //	revert-dropped      RevertHead whose commit is lost
+//	store-invalid       Store of a block a guard of Update / of the CASM metadata rejects (contract
+//	                    already deployed, class / nonce / storage of a contract that does not exist,
+//	                    migration of a class that cannot be migrated); which guard fires is compared
+//	                    with the model's error branch
+//	(revert-refused     a RevertHead that failed on its own, see Engine.Revert)
+//
+// For every discarded operation the model is asked for the outcome (`try-store`, `try-revert`): ok
+// where juno's guards pass, the same guard where one fires.
 //
 // The candidate block is built WITHOUT touching the source chain: header as ChainGen does, roots and
 // hash from Simulate on the source node (itself a discarded operation there).
@@ -28,6 +36,9 @@ import (
 var discardedOps = []string{"simulate", "store-dropped", "store-late-fail", "store-wrong-root", "revert-dropped"}
 
 func isDiscarded(op string) bool {
+	if op == "store-invalid" || op == "revert-refused" {
+		return true
+	}
 	for _, o := range discardedOps {
 		if o == op {
 			return true
@@ -64,9 +75,34 @@ func (e *Engine) candidate(d *Desc) (*lib.Bundle, *core.BlockCommitments, error)
 		return err
 	})
 	if pan || err != nil {
-		return nil, nil, fmt.Errorf("source Simulate: %v", err)
+		// not simulable: hand the block back with roots that cannot be right (a guard must fire
+		// before they are looked at)
+		b.SU.NewRoot, b.Block.GlobalStateRoot, b.Block.Hash = lib.F(0xBAD), lib.F(0xBAD), lib.F(0xB10C0000+num)
+		return b, &core.BlockCommitments{TransactionCommitment: &felt.Zero, EventCommitment: &felt.Zero,
+			ReceiptCommitment: &felt.Zero, StateDiffCommitment: &felt.Zero}, fmt.Errorf("source Simulate: %v", err)
 	}
 	return b, commitments, nil
+}
+
+// compareOutcome: the model's prediction for a discarded store / revert against what the nodes did.
+// real: per backend kind "ok" | "err:<guard>" | "root" (all guards passed, commitment check failed).
+func (e *Engine) compareOutcome(op string, mdl, real map[string]string) {
+	if mdl == nil {
+		return
+	}
+	for kind, r := range real {
+		m := mdl[kind]
+		same := m == r || (m == "ok" && r == "root")
+		if e.res != nil {
+			e.res.Compared(1)
+		}
+		if same {
+			e.hit("outcome:" + op + ":" + kind + ":" + r)
+			continue
+		}
+		e.fail(Failure{Sig: "model-outcome-" + op + "-" + kind, What: fmt.Sprintf("%s on the %s backend: model %s, implementation %s", op, kind, m, r),
+			Query: map[string]any{"step": len(e.steps) - 1, "backend": kind, "model": m, "impl": r}})
+	}
 }
 
 // Discard performs one discarded operation on every node that supports it. d is the diff of the
@@ -86,10 +122,12 @@ func (e *Engine) Discard(op string, d *Desc) {
 		// the operation did not end the way this harness arranged (not a statement about reads)
 		e.fail(Failure{Sig: "discarded-op-" + op + "-ended-unexpectedly-" + n.kind, What: n.name + ": " + what})
 	}
+	real := map[string]string{}
 	if op == "revert-dropped" {
 		if e.g.Height() == 0 {
 			return
 		}
+		mdl := e.modelTry("try-revert")
 		for _, n := range e.nodes[1:] {
 			n.fault.drop = 1
 			err, pan, _ := lib.Try(func() error { return n.bc.RevertHead() })
@@ -98,11 +136,25 @@ func (e *Engine) Discard(op string, d *Desc) {
 				e.fail(Failure{Violation: true, Sig: n.kind + "-reverthead-panics-when-commit-fails", What: fmt.Sprint(err)})
 			} else if !errors.Is(err, errDropped) {
 				unexpected(n, fmt.Sprintf("RevertHead with a dropped commit returned %v", err))
+				real[n.kind] = errClass(err)
+			} else {
+				real[n.kind] = "ok" // everything but the commit happened
 			}
 		}
+		e.compareOutcome(op, mdl, real)
 		return
 	}
 	b, commitments, err := e.candidate(d)
+	p := "p1"
+	if isV2(d.Version) {
+		p = "p2"
+	}
+	mdl := e.modelTry("try-store " + hx(b.Block.Hash) + " " + p + " " + st.Diff)
+	defer func() { e.compareOutcome(op, mdl, real) }()
+	if err != nil && op == "store-invalid" {
+		e.hit("op:discarded:store-invalid:rejected-by-the-source-simulate")
+		err = nil
+	}
 	if err != nil {
 		if op == "store-late-fail" {
 			// the source may refuse to simulate it; nothing to offer then
@@ -122,20 +174,35 @@ func (e *Engine) Discard(op string, d *Desc) {
 			if err != nil && !pan {
 				e.fail(Failure{Violation: true, Sig: "simulate-of-wellformed-block-failed-" + n.kind, What: n.name + ": " + firstLine(err.Error())})
 			}
+			if !pan {
+				// Simulate runs State.Update only; the CASM metadata step is not part of it
+				if r := errClass(err); r == "ok" || (mdl != nil && !strings.Contains(mdl[n.kind], "meta") && !strings.Contains(mdl[n.kind], "migrate")) {
+					real[n.kind] = r
+				}
+			}
 		case "store-dropped":
 			n.fault.drop = 1
 			err, pan, _ = lib.Try(func() error { return n.bc.Store(c.Block, commitments, c.SU, c.Classes) })
 			n.fault.drop = 0
 			if !pan && !errors.Is(err, errDropped) {
 				unexpected(n, fmt.Sprintf("Store with a dropped commit returned %v", err))
+				real[n.kind] = errClass(err)
+			} else if !pan {
+				real[n.kind] = "ok"
 			}
-		case "store-late-fail":
+		case "store-late-fail", "store-invalid":
 			err, pan, _ = lib.Try(func() error { return n.bc.Store(c.Block, commitments, c.SU, c.Classes) })
 			if !pan && err == nil {
-				unexpected(n, "the block meant to fail in writeBlockContent was stored")
-				e.broken = "late-fail block stored"
-			} else if !pan && !strings.Contains(err.Error(), "migrate") {
+				unexpected(n, "the block meant to be rejected was stored")
+				e.broken = op + " block stored"
+			} else if !pan && op == "store-late-fail" && !strings.Contains(err.Error(), "migrate") {
 				e.hit("op:discarded:store-late-fail:failed-elsewhere")
+			}
+			if !pan {
+				real[n.kind] = errClass(err)
+				if real[n.kind] == "other" {
+					real[n.kind] = "other: " + firstLine(err.Error())
+				}
 			}
 		case "store-wrong-root":
 			c.SU.NewRoot = lib.F(0xBAD)
@@ -150,6 +217,68 @@ func (e *Engine) Discard(op string, d *Desc) {
 			e.fail(Failure{Violation: true, Sig: n.kind + "-" + op + "-panics", What: fmt.Sprint(err)})
 		}
 	}
+}
+
+// invalidDesc: a diff one of juno's guards must reject on top of the current chain (nil if the
+// chain offers nothing to violate).
+func (e *Engine) invalidDesc() *Desc {
+	r := e.g.R
+	prev := e.g.HeadState()
+	var deployed, absent []felt.Felt
+	for _, a := range e.u.Addrs {
+		if isSystem(&a) {
+			continue
+		}
+		if prev.Deployed[a] {
+			deployed = append(deployed, a)
+		} else {
+			absent = append(absent, a)
+		}
+	}
+	d := emptyDiff()
+	version := versions[e.verIdx]
+	for try := 0; try < 8; try++ {
+		switch r.Intn(6) {
+		case 0:
+			if len(deployed) > 0 {
+				a := deployed[r.Intn(len(deployed))]
+				d.DeployedContracts[a] = lib.F(0xc001)
+				return &Desc{Version: version, Diff: d, Classes: map[felt.Felt]core.ClassDefinition{}}
+			}
+		case 1:
+			if len(absent) > 0 {
+				d.ReplacedClasses[absent[r.Intn(len(absent))]] = lib.F(0xc002)
+				return &Desc{Version: version, Diff: d, Classes: map[felt.Felt]core.ClassDefinition{}}
+			}
+		case 2:
+			if len(absent) > 0 {
+				d.Nonces[absent[r.Intn(len(absent))]] = lib.F(3)
+				return &Desc{Version: version, Diff: d, Classes: map[felt.Felt]core.ClassDefinition{}}
+			}
+		case 3:
+			if len(absent) > 0 {
+				d.StorageDiffs[absent[r.Intn(len(absent))]] = map[felt.Felt]*felt.Felt{*lib.F(2): lib.F(7)}
+				return &Desc{Version: version, Diff: d, Classes: map[felt.Felt]core.ClassDefinition{}}
+			}
+		case 4:
+			// migration of a class whose current compiled class hash is already the blake2s one
+			// (declared under >= 0.14.1, or migrated before)
+			for _, fx := range sierraFxs {
+				if cur, ok := prev.Casm[fx.hash]; ok && cur.Equal(&fx.casm2) {
+					d.MigratedClasses[felt.SierraClassHash(fx.hash)] = felt.CasmClassHash(fx.casm2)
+					return &Desc{Version: "0.14.1", Diff: d, Classes: map[felt.Felt]core.ClassDefinition{}}
+				}
+			}
+		case 5:
+			if len(deployed) > 0 && len(absent) > 0 {
+				// a valid part and an invalid one: nothing of it may stay
+				d.StorageDiffs[deployed[0]] = map[felt.Felt]*felt.Felt{*lib.F(2): lib.F(0), *lib.F(3): lib.F(9)}
+				d.Nonces[absent[0]] = lib.F(1)
+				return &Desc{Version: version, Diff: d, Classes: map[felt.Felt]core.ClassDefinition{}}
+			}
+		}
+	}
+	return nil
 }
 
 // lateFailDesc: a diff that State.Update accepts and writeBlockContent rejects — a CASM migration
@@ -263,7 +392,12 @@ func (e *Engine) recheckHeld(n *node, qs []query) {
 				// (fresh by-hash views and the source's by-number views are sampled: report it here,
 				// under the Sig a fresh view would give it, so that it cannot get lost)
 				e.hit("held:wrong-like-a-fresh-reader(reported-as-fresh)")
-				e.reportFresh(n, hr.label, hr.n, q, got, want, st, nil, -1)
+				if hr.label == "head" {
+					// a live view: it is the CURRENT head that a fresh head reader answers for
+					e.reportFresh(n, "head", h-1, q, got, expected(cur, q, true), cur, nil, -1)
+				} else {
+					e.reportFresh(n, hr.label, hr.n, q, got, want, st, nil, -1)
+				}
 				continue
 			}
 			kind := q.Kind
